@@ -125,24 +125,6 @@ Proof.
     + inv H. reflexivity.
 Qed.
 
-Lemma cmd_ok_app r c rest F R :
-  cmd_ok r (c ++ rest) = true -> feed r c = (F, false, R, []) -> cmd_ok R rest = true.
-Proof.
-  revert r F; induction c as [|b c IH]; intros r F H HF.
-  - cbn in HF. inv HF. assumption.
-  - cbn [app cmd_ok feed] in *. apply andb_true_iff in H as [_ H].
-    destruct (feed1 r b) as [r' fr]. destruct fr.
-    + eapply IH; eassumption.
-    + destruct (feed r' c) as [[[fs e] r''] rest'] eqn:E. inv HF. eapply IH; eassumption.
-    + discriminate.
-Qed.
-
-Lemma cmd_ok_head r b rest : cmd_ok r (b :: rest) = true -> command r = 0 -> b <> 0.
-Proof.
-  cbn [cmd_ok]. intros H Hc. apply andb_true_iff in H as [H _]. rewrite Hc in H. cbn in H.
-  intro; subst. discriminate.
-Qed.
-
 (* ------------------------------------------------------------------------------------------------ *)
 Section GenericProofs.
   Context {T : Type}.
@@ -192,9 +174,11 @@ Section GenericProofs.
 
   (* ---- phase 1 ---- *)
   Lemma phase1_spec r t :
-    rd_ok r -> complete r = false -> cmd_ok r (stream t) = true ->
+    rd_ok r -> complete r = false ->
     match phase1 recv r t with
-    | Ret rc r' t' => r' = r /\ stream t' = stream t /\ early t rc t'
+    | Ret rc r' t' =>
+        (r' = r /\ stream t' = stream t /\ early t rc t') \/
+        (rc = PrProtocol /\ exists b, stream t = b :: stream t' /\ raw1 r b = (r', true))
     | Cont r' t' =>
         exists c, stream t = c ++ stream t' /\ raws r c = Some r' /\ command r' <> 0 /\
                   have_remaining r' = have_remaining r /\ to_process r' = to_process r /\
@@ -202,19 +186,21 @@ Section GenericProofs.
                   (c = [] -> t' = t)
     end.
   Proof.
-    intros Hok Hc Hcmd. unfold phase1. destruct (command r =? 0) eqn:E0.
+    intros Hok Hc. unfold phase1. destruct (command r =? 0) eqn:E0.
     - apply Z.eqb_eq in E0. pose proof (recv1_cases t) as H.
       destruct (recv 1 t) as [[d| | |] t'].
       + destruct d as [|b [|b2 d]].
-        * destruct H. repeat split; auto. right. auto.
-        * destruct H as (Hs & Hz & Hl). exists [b]. rewrite Hs in Hcmd.
-          pose proof (cmd_ok_head _ _ _ Hcmd E0) as Hb.
-          cbn [raws]. rewrite Hc. unfold raw1. rewrite E0. cbn [Z.eqb].
-          repeat split; auto; try lia. discriminate.
+        * destruct H. left. repeat split; auto. right. auto.
+        * destruct H as (Hs & Hz & Hl). destruct (b =? 0) eqn:Eb.
+          -- right. split; [reflexivity|]. exists b. split; [assumption|].
+             unfold raw1. rewrite E0, Eb. reflexivity.
+          -- exists [b]. cbn [raws]. rewrite Hc. unfold raw1. rewrite E0, Eb. cbn [Z.eqb].
+             apply Z.eqb_neq in Eb.
+             repeat split; auto; try lia. discriminate.
         * contradiction.
-      + destruct H as (Hs & Hz & Hl). repeat split; auto. left. auto.
-      + destruct H. repeat split; auto. right; auto.
-      + destruct H. repeat split; auto. right; auto.
+      + destruct H as (Hs & Hz & Hl). left. repeat split; auto. left. auto.
+      + destruct H. left. repeat split; auto. right; auto.
+      + destruct H. left. repeat split; auto. right; auto.
     - apply Z.eqb_neq in E0. exists []. repeat split; auto.
   Qed.
 
@@ -411,11 +397,11 @@ Section GenericProofs.
   Qed.
 
   Lemma packet_read_spec r t :
-    rd_ok r -> cmd_ok (snd (flush r)) (stream t) = true ->
+    rd_ok r ->
     let '(rc, r', t') := packet_read r t in
     exists c, stream t = c ++ stream t' /\ call_rel r c rc r' /\ call_progress r t rc t'.
   Proof.
-    intros Hok Hcmd. unfold Reader.packet_read.
+    intros Hok. unfold Reader.packet_read.
     destruct (complete r) eqn:Hc.
     - (* a complete packet is pending (the 100-reads early return happened on its last byte) *)
       assert (Hhr : have_remaining r = true /\ (0 <? to_process r) = false).
@@ -430,12 +416,15 @@ Section GenericProofs.
       + cbn [call_rel]. unfold flush. rewrite Hc. cbn [fst snd]. exists []. repeat split.
       + cbn [call_progress]. split; [auto|]. left; auto.
     - assert (Hfl : snd (flush r) = r) by (unfold flush; rewrite Hc; reflexivity).
-      rewrite Hfl in Hcmd.
-      pose proof (phase1_spec r t Hok Hc Hcmd) as H1.
+      pose proof (phase1_spec r t Hok Hc) as H1.
       destruct (phase1 recv r t) as [rc r1 t1|r1 t1].
-      { destruct H1 as (-> & Hs & He). exists []. split; [rewrite Hs; reflexivity|]. split.
-        - apply soft_rel; [eapply early_soft; eassumption|assumption|reflexivity|assumption].
-        - eapply early_progress; eassumption. }
+      { destruct H1 as [(-> & Hs & He)|(-> & b & Hs & Hraw)].
+        - exists []. split; [rewrite Hs; reflexivity|]. split.
+          + apply soft_rel; [eapply early_soft; eassumption|assumption|reflexivity|assumption].
+          + eapply early_progress; eassumption.
+        - exists [b]. split; [assumption|]. split; [|exact I].
+          cbn [call_rel]. unfold flush. rewrite Hc. cbn [fst snd]. split; [|reflexivity].
+          apply (raws_feed_err r [] r b r1); [reflexivity|assumption|assumption]. }
       destruct H1 as (c1 & Hs1 & Hr1 & Hcmd1 & Hhr1 & Htp1 & Hsz1 & Hlv1 & Hnil1).
       (* phase 2 *)
       assert (H2 : match phase2 recv r1 t1 with
@@ -515,16 +504,16 @@ Section GenericProofs.
     end.
 
   Lemma run_spec fuel : forall r t,
-    rd_ok r -> cmd_ok (snd (flush r)) (stream t) = true ->
+    rd_ok r ->
     let '(fs, st, r', t') := run fuel r t in
     exists c, stream t = c ++ stream t' /\ run_rel r c fs st r' /\
       (st = StIdle -> idle t' = true) /\
       (st = StConnLost -> live t = false) /\
       (st = StFuel -> (fuel <= weight r t)%nat).
   Proof.
-    induction fuel as [|f IH]; intros r t Hok Hcmd.
+    induction fuel as [|f IH]; intros r t Hok.
     - cbn [Reader.run]. exists []. repeat split; try discriminate. intros _. lia.
-    - cbn [Reader.run]. pose proof (packet_read_spec r t Hok Hcmd) as H.
+    - cbn [Reader.run]. pose proof (packet_read_spec r t Hok) as H.
       destruct (packet_read r t) as [[rc r1] t1].
       destruct H as (c1 & Hs1 & Hrel & Hprog).
       destruct rc as [| | |cmd body|]; cbn [call_rel call_progress] in Hrel, Hprog.
@@ -533,16 +522,13 @@ Section GenericProofs.
         destruct (idle t1) eqn:Hid.
         * exists c1. split; [assumption|]. split; [|repeat split; try discriminate; auto].
           cbn [run_rel]. exists F. split; [assumption|]. cbn [app]. assumption.
-        * assert (Hcmd1 : cmd_ok (snd (flush r1)) (stream t1) = true).
-          { rewrite Hs1 in Hcmd. eapply cmd_ok_app; eassumption. }
-          specialize (IH r1 t1 Hok1 Hcmd1).
+        * specialize (IH r1 t1 Hok1).
           destruct (run f r1 t1) as [[[fs st] r2] t2].
           destruct IH as (c2 & Hs2 & Hrel2 & Hi & Hcl & Hfu).
           exists (c1 ++ c2). split; [rewrite Hs1, Hs2, app_assoc; reflexivity|].
           destruct Hsz as [Hsz|Hsz]; [|congruence].
           split; [|repeat split; auto].
-          -- rewrite (feed_app _ _ c2 _ _ HF).
-             destruct st; cbn [run_rel] in *; auto.
+          -- destruct st; cbn [run_rel] in *; auto; rewrite (feed_app _ _ c2 _ _ HF).
              ++ destruct Hrel2 as (F2 & HF2 & HFl2). rewrite HF2. exists (F ++ F2). split; [reflexivity|].
                 rewrite app_assoc, HFl. assumption.
              ++ destruct Hrel2 as (F2 & HF2 & HFl2). rewrite HF2. exists (F ++ F2). split; [reflexivity|].
@@ -561,25 +547,371 @@ Section GenericProofs.
         cbn [run_rel]. exists []. split; [assumption|]. rewrite HFl. reflexivity.
       + (* a frame *)
         destruct Hrel as (F & HF & HFl & ->). destruct Hprog as [Hlv Hsz].
-        assert (Hcmd1 : cmd_ok (snd (flush rd_init)) (stream t1) = true).
-        { rewrite Hs1 in Hcmd. eapply cmd_ok_app; eassumption. }
-        specialize (IH rd_init t1 rd_ok_init Hcmd1).
+        specialize (IH rd_init t1 rd_ok_init).
         destruct (run f rd_init t1) as [[[fs st] r2] t2].
         destruct IH as (c2 & Hs2 & Hrel2 & Hi & Hcl & Hfu).
         exists (c1 ++ c2). split; [rewrite Hs1, Hs2, app_assoc; reflexivity|].
         split; [|repeat split; auto].
-        * change (snd (flush rd_init)) with rd_init in *.
-          rewrite (feed_app _ _ c2 _ _ HF).
-          destruct st; cbn [run_rel] in *; auto.
+        * destruct st; cbn [run_rel] in *; auto; rewrite (feed_app _ _ c2 _ _ HF);
+            change (snd (flush rd_init)) with rd_init in *.
           -- destruct Hrel2 as (F2 & HF2 & HFl2). rewrite HF2. exists (F ++ F2). split; [reflexivity|].
-             rewrite app_assoc, HFl. cbn [fst flush app] in *. rewrite HFl2. reflexivity.
+             rewrite app_assoc, HFl. change (fst (flush rd_init)) with (@nil frame) in HFl2.
+             cbn [app] in HFl2. rewrite HFl2. reflexivity.
           -- destruct Hrel2 as (F2 & HF2 & HFl2). rewrite HF2. exists (F ++ F2). split; [reflexivity|].
-             rewrite app_assoc, HFl. cbn [fst flush app] in *. rewrite HFl2. reflexivity.
+             rewrite app_assoc, HFl. change (fst (flush rd_init)) with (@nil frame) in HFl2.
+             cbn [app] in HFl2. rewrite HFl2. reflexivity.
           -- destruct Hrel2 as (F2 & HF2 & HFl2). rewrite HF2. exists (F ++ F2). split; [reflexivity|].
-             rewrite app_assoc, HFl. cbn [fst flush app] in *. rewrite HFl2. reflexivity.
+             rewrite app_assoc, HFl. change (fst (flush rd_init)) with (@nil frame) in HFl2.
+             cbn [app] in HFl2. rewrite HFl2. reflexivity.
         * intro E. specialize (Hcl E). destruct (live t); [|reflexivity]. rewrite (Hlv eq_refl) in Hcl. discriminate.
         * intro E. specialize (Hfu E). unfold weight in *. cbn [complete rd_init have_remaining andb] in Hfu.
           destruct Hsz as [[Hc ->]|[Hc Hsz]]; rewrite Hc; lia.
       + contradiction.
   Qed.
 End GenericProofs.
+
+(* ------------------------------------------------------------------------------------------------ *)
+(* the raw socket is such a transport *)
+Definition sock_stream (s : sock) : list Z := fst s.
+Definition sock_size (s : sock) : nat := (length (fst s) + length (snd s))%nat.
+Definition ev_live (e : ev) : bool := match e with Eof | Err => false | _ => true end.
+Definition sock_live (s : sock) : bool := forallb ev_live (snd s).
+
+Lemma take_drop n l : take n l ++ drop n l = l.
+Proof. apply firstn_skipn. Qed.
+
+Lemma drop_length n l : 1 <= n -> l <> [] -> (length (drop n l) < length l)%nat.
+Proof.
+  intros Hn Hl. unfold drop. rewrite skipn_length. destruct l; [congruence|]. cbn [length]. lia.
+Qed.
+
+Lemma take_nonempty n l : 1 <= n -> l <> [] -> take n l <> [].
+Proof.
+  intros Hn Hl. unfold take. destruct l as [|x l]; [congruence|].
+  destruct (Z.to_nat n) eqn:E; [lia|]. cbn. discriminate.
+Qed.
+
+Lemma take_length n l : 0 <= n -> Z.of_nat (length (take n l)) <= n.
+Proof. intros Hn. unfold take. pose proof (firstn_le_length (Z.to_nat n) l). lia. Qed.
+
+Lemma sock_recv_spec : recv_spec sock_recv sock_idle sock_stream sock_size sock_live.
+Proof.
+  intros n [av sch] Hn. unfold sock_recv, sock_stream, sock_size, sock_live, sock_idle.
+  destruct sch as [|e sch'].
+  - destruct av as [|a av'].
+    + cbn. repeat split; auto.
+    + cbn [fst snd]. split; [|split; [|split; [intros _; split|]]].
+      * symmetry; apply take_drop.
+      * pose proof (drop_length n (a :: av') Hn ltac:(discriminate)). cbn [length] in *. lia.
+      * apply take_nonempty; [assumption|discriminate].
+      * reflexivity.
+      * apply take_length; lia.
+  - destruct e as [k| | |]; cbn [fst snd forallb ev_live andb].
+    + destruct av as [|a av']; cbn [fst snd].
+      * split; [reflexivity|split; [left; cbn [length]; lia|auto]].
+      * assert (Hm : 1 <= Z.max 1 (Z.min n k) <= n) by lia.
+        split; [|split; [|split; [intros Hl; split|]]].
+        -- symmetry; apply take_drop.
+        -- pose proof (drop_length (Z.max 1 (Z.min n k)) (a :: av') ltac:(lia) ltac:(discriminate)).
+           cbn [length] in *. lia.
+        -- apply take_nonempty; [lia|discriminate].
+        -- assumption.
+        -- pose proof (take_length (Z.max 1 (Z.min n k)) (a :: av') ltac:(lia)). lia.
+    + split; [reflexivity|split; [left; cbn [length]; lia|auto]].
+    + split; reflexivity.
+    + split; reflexivity.
+Qed.
+
+Lemma sock_idle_nil s : sock_idle s = true -> fst s = [].
+Proof. unfold sock_idle. destruct (fst s); [reflexivity|discriminate]. Qed.
+
+Definition is_proto (st : status) : bool := match st with StProtocol => true | _ => false end.
+
+(* THE refinement theorem: every schedule, every byte string, every (sane) starting state *)
+Theorem read_refines_feed_gen : forall r bs sch,
+  rd_ok r ->
+  let '(fs, st, r', s') := sock_run (sock_fuel (bs, sch)) r (bs, sch) in
+  st <> StFuel /\
+  exists c, bs = c ++ fst s' /\
+    (if is_proto st
+     then exists F, feed (snd (flush r)) c = (F, true, r', []) /\ fst (flush r) ++ F = fs
+     else exists F, feed (snd (flush r)) c = (F, false, snd (flush r'), []) /\
+                    fst (flush r) ++ F = fs ++ fst (flush r')) /\
+    (st = StIdle -> fst s' = []) /\
+    (st = StConnLost -> sock_live (bs, sch) = false).
+Proof.
+  intros r bs sch Hok.
+  pose proof (run_spec sock_recv sock_idle sock_stream sock_size sock_live sock_recv_spec
+                (sock_fuel (bs, sch)) r (bs, sch) Hok) as H.
+  unfold sock_run. destruct (run sock_recv sock_idle (sock_fuel (bs, sch)) r (bs, sch)) as [[[fs st] r'] s'].
+  destruct H as (c & Hs & Hrel & Hi & Hcl & Hfu). split.
+  - intro E. specialize (Hfu E). unfold weight, sock_fuel, sock_size in Hfu. cbn [fst snd] in Hfu.
+    destruct (complete r); lia.
+  - exists c. split; [exact Hs|]. split; [|split].
+    + destruct st; cbn [is_proto run_rel] in *; try assumption. exfalso.
+      apply (fun X => X) in Hfu. (* StFuel excluded above; keep the goal simple *)
+      specialize (Hfu eq_refl). unfold weight, sock_fuel, sock_size in Hfu. cbn [fst snd] in Hfu.
+      destruct (complete r); lia.
+    + intro E. apply sock_idle_nil. auto.
+    + assumption.
+Qed.
+
+Theorem read_refines_feed : forall bs sch,
+  let '(fs, st, r', s') := sock_run (sock_fuel (bs, sch)) rd_init (bs, sch) in
+  st <> StFuel /\
+  exists c, bs = c ++ fst s' /\
+    (if is_proto st
+     then feed rd_init c = (fs, true, r', [])
+     else feed rd_init c = (fs ++ fst (flush r'), false, snd (flush r'), [])) /\
+    (st = StIdle -> fst s' = []) /\
+    (st = StConnLost -> sock_live (bs, sch) = false).
+Proof.
+  intros bs sch.
+  pose proof (read_refines_feed_gen rd_init bs sch rd_ok_init) as H.
+  destruct (sock_run (sock_fuel (bs, sch)) rd_init (bs, sch)) as [[[fs st] r'] s'].
+  destruct H as (Hf & c & Hs & Hrel & Hi & Hcl). split; [assumption|].
+  exists c. split; [assumption|]. split; [|split; assumption].
+  change (snd (flush rd_init)) with rd_init in Hrel. change (fst (flush rd_init)) with (@nil frame) in Hrel.
+  destruct (is_proto st); destruct Hrel as (F & HF & HFl); cbn [app] in HFl; subst F; assumption.
+Qed.
+
+(* observable result of a run, with a pending complete packet counted as delivered *)
+Definition outcome (x : list frame * status * rd * sock) : list frame * bool * rd * list Z :=
+  let '(fs, st, r', s') := x in
+  if is_proto st then (fs, true, r', fst s')
+  else (fs ++ fst (flush r'), false, snd (flush r'), fst s').
+
+(* schedules made of Chunk / Block only: the run equals the fold, whatever the schedule *)
+Theorem read_total : forall bs sch,
+  sock_live (bs, sch) = true ->
+  outcome (sock_run (sock_fuel (bs, sch)) rd_init (bs, sch)) = feed rd_init bs.
+Proof.
+  intros bs sch Hlive.
+  pose proof (read_refines_feed bs sch) as H.
+  destruct (sock_run (sock_fuel (bs, sch)) rd_init (bs, sch)) as [[[fs st] r'] s'].
+  destruct H as (Hf & c & Hs & Hrel & Hi & Hcl). unfold outcome.
+  destruct st; cbn [is_proto] in *.
+  - rewrite (Hi eq_refl) in *. rewrite app_nil_r in Hs. subst c. symmetry; assumption.
+  - rewrite (Hcl eq_refl) in Hlive. discriminate.
+  - rewrite Hs. symmetry. apply feed_err_app. assumption.
+  - congruence.
+Qed.
+
+Corollary chunk_independent : forall bs sch1 sch2,
+  sock_live (bs, sch1) = true -> sock_live (bs, sch2) = true ->
+  outcome (sock_run (sock_fuel (bs, sch1)) rd_init (bs, sch1)) =
+  outcome (sock_run (sock_fuel (bs, sch2)) rd_init (bs, sch2)).
+Proof. intros. rewrite !read_total by assumption. reflexivity. Qed.
+
+(* arbitrary schedules (also with EOF / errors): same bytes consumed => same frames, error, state *)
+Corollary chunk_independent_gen : forall bs sch1 sch2,
+  let x1 := sock_run (sock_fuel (bs, sch1)) rd_init (bs, sch1) in
+  let x2 := sock_run (sock_fuel (bs, sch2)) rd_init (bs, sch2) in
+  snd (outcome x1) = snd (outcome x2) -> outcome x1 = outcome x2.
+Proof.
+  intros bs sch1 sch2 x1 x2. subst x1 x2.
+  pose proof (read_refines_feed bs sch1) as H1.
+  pose proof (read_refines_feed bs sch2) as H2.
+  destruct (sock_run (sock_fuel (bs, sch1)) rd_init (bs, sch1)) as [[[fs1 st1] r1] s1].
+  destruct (sock_run (sock_fuel (bs, sch2)) rd_init (bs, sch2)) as [[[fs2 st2] r2] s2].
+  destruct H1 as (_ & c1 & Hs1 & Hrel1 & _). destruct H2 as (_ & c2 & Hs2 & Hrel2 & _).
+  unfold outcome. intro Hrest.
+  assert (Hr : fst s1 = fst s2) by (destruct (is_proto st1), (is_proto st2); exact Hrest).
+  assert (c1 = c2) by (rewrite Hr in Hs1; rewrite Hs1 in Hs2; eapply app_inv_tail; eassumption).
+  subst c2. rewrite Hr.
+  destruct (is_proto st1), (is_proto st2); congruence.
+Qed.
+
+(* regression for F-C05b (fixed in /repo 362d314): the stream 00 00, whole or as 00 | EAGAIN | 00,
+   is a protocol error at its first byte; before the fix the split delivery swallowed both bytes *)
+Example zero_command_regression :
+  outcome (sock_run 20 rd_init ([0; 0], [])) = ([], true, rd_init, [0]) /\
+  outcome (sock_run 20 rd_init ([0; 0], [Chunk 1; Block])) = ([], true, rd_init, [0]).
+Proof. split; vm_compute; reflexivity. Qed.
+
+(* ------------------------------------------------------------------------------------------------ *)
+(* framing round trip *)
+
+Lemma rl_step x mult rl : rl + (x mod 128) * mult + x / 128 * (mult * 128) = rl + x * mult.
+Proof.
+  pose proof (Z.div_mod x 128 ltac:(lia)) as H.
+  remember (x / 128) as q. remember (x mod 128) as d. rewrite H. ring.
+Qed.
+
+Lemma enc_rl_fuel_S f x :
+  enc_rl_fuel (S f) x = if 0 <? x / 128 then (x mod 128 + 128) :: enc_rl_fuel f (x / 128) else [x mod 128].
+Proof. reflexivity. Qed.
+
+Lemma raws_enc_rl c : c <> 0 -> forall fuel x cnt mult rl,
+  0 <= x < 128 ^ Z.of_nat (S fuel) -> (length cnt + S fuel <= 4)%nat ->
+  exists cnt' m,
+    raws (mkRd c false cnt mult rl [] 0) (enc_rl_fuel (S fuel) x) =
+    Some (mkRd c true cnt' m (rl + x * mult) [] (rl + x * mult)).
+Proof.
+  intros Hc. induction fuel as [|f IH]; intros x cnt mult rl Hx Hlen.
+  - change (128 ^ Z.of_nat 1) with 128 in Hx.
+    cbn [enc_rl_fuel]. replace (0 <? x / 128) with false by (symmetry; apply Z.ltb_ge; lia).
+    replace (x mod 128) with x by lia.
+    cbn [raws complete have_remaining andb]. unfold raw1.
+    cbn [command have_remaining negb push_count remaining_count].
+    apply Z.eqb_neq in Hc. rewrite Hc.
+    replace (4 <? Z.of_nat (length (cnt ++ [x]))) with false
+      by (symmetry; apply Z.ltb_ge; rewrite app_length; cbn [length]; lia).
+    rewrite land_128 by lia. replace (x <? 128) with true by (symmetry; apply Z.ltb_lt; lia).
+    cbn [Z.eqb]. unfold finish_length, add_length, push_count.
+    cbn [command have_remaining remaining_count remaining_mult remaining_length packet to_process].
+    rewrite land_127 by lia. replace (x mod 128) with x by lia.
+    eexists _, _. reflexivity.
+  - assert (Hp : 128 ^ Z.of_nat (S (S f)) = 128 * 128 ^ Z.of_nat (S f)).
+    { rewrite (Nat2Z.inj_succ (S f)), Z.pow_succ_r by lia. reflexivity. }
+    rewrite enc_rl_fuel_S. destruct (0 <? x / 128) eqn:E.
+    + apply Z.ltb_lt in E.
+      set (d := x mod 128). assert (Hd : 0 <= d < 128) by (subst d; lia).
+      cbn [raws complete have_remaining andb]. unfold raw1.
+      cbn [command have_remaining negb push_count remaining_count].
+      apply Z.eqb_neq in Hc. rewrite Hc.
+      replace (4 <? Z.of_nat (length (cnt ++ [d + 128]))) with false
+        by (symmetry; apply Z.ltb_ge; rewrite app_length; cbn [length]; lia).
+      rewrite land_128 by lia. replace (d + 128 <? 128) with false by (symmetry; apply Z.ltb_ge; lia).
+      cbn [Z.eqb]. unfold add_length, push_count.
+      cbn [command have_remaining remaining_count remaining_mult remaining_length packet to_process].
+      rewrite land_127 by lia. replace ((d + 128) mod 128) with d by lia.
+      destruct (IH (x / 128) (cnt ++ [d + 128]) (mult * 128) (rl + d * mult)) as (cnt' & m & Hr).
+      * rewrite Hp in Hx. lia.
+      * rewrite app_length. cbn [length]. lia.
+      * rewrite Hr. eexists _, _. f_equal.
+        assert (Hx' : rl + d * mult + x / 128 * (mult * 128) = rl + x * mult).
+        { subst d. apply rl_step. }
+        rewrite Hx'. reflexivity.
+    + apply Z.ltb_ge in E.
+      assert (x < 128) by lia.
+      replace (x mod 128) with x by lia.
+      cbn [raws complete have_remaining andb]. unfold raw1.
+      cbn [command have_remaining negb push_count remaining_count].
+      apply Z.eqb_neq in Hc. rewrite Hc.
+      replace (4 <? Z.of_nat (length (cnt ++ [x]))) with false
+        by (symmetry; apply Z.ltb_ge; rewrite app_length; cbn [length]; lia).
+      rewrite land_128 by lia. replace (x <? 128) with true by (symmetry; apply Z.ltb_lt; lia).
+      cbn [Z.eqb]. unfold finish_length, add_length, push_count.
+      cbn [command have_remaining remaining_count remaining_mult remaining_length packet to_process].
+      rewrite land_127 by lia. replace (x mod 128) with x by lia.
+      eexists _, _. reflexivity.
+Qed.
+
+Lemma raws_body r d :
+  command r <> 0 -> have_remaining r = true -> to_process r = Z.of_nat (length d) ->
+  exists r', raws r d = Some r' /\ complete r' = true /\ command r' = command r /\ packet r' = packet r ++ d.
+Proof.
+  intros Hc Hh Ht. destruct d as [|b d].
+  - exists r. cbn [raws]. repeat split; auto.
+    + unfold complete. rewrite Hh, Ht. reflexivity.
+    + rewrite app_nil_r; reflexivity.
+  - exists (add_data r (b :: d)).
+    assert (X : forall (T : Type), True) by auto.
+    pose proof (raws_add_data (b :: d) r Hc Hh ltac:(lia)) as [H|[H _]]; [|discriminate].
+    repeat split; auto.
+    unfold complete, add_data. cbn [have_remaining to_process]. rewrite Hh, Ht.
+    replace (0 <? Z.of_nat (length (b :: d)) - Z.of_nat (length (b :: d))) with false
+      by (symmetry; apply Z.ltb_ge; lia).
+    reflexivity.
+Qed.
+
+Lemma frame_raws c body :
+  frame_ok (c, body) = true ->
+  c <> 0 /\
+  exists r3, raws (mkRd c false [] 1 0 [] 0) (enc_rl (Z.of_nat (length body)) ++ body) = Some r3 /\
+             complete r3 = true /\ command r3 = c /\ packet r3 = body.
+Proof.
+  unfold frame_ok, max_rl. cbn [fst snd]. intro Hok.
+  apply andb_true_iff in Hok as [Hok Hl]. apply andb_true_iff in Hok as [Hc1 Hc2].
+  assert (Hc : c <> 0) by lia. split; [assumption|].
+  set (n := Z.of_nat (length body)) in *.
+  destruct (raws_enc_rl c Hc 3%nat n [] 1 0) as (cnt' & m & Hr).
+  { change (128 ^ Z.of_nat 4) with 268435456. lia. }
+  { cbn. lia. }
+  replace (0 + n * 1) with n in Hr by lia.
+  destruct (raws_body (mkRd c true cnt' m n [] n) body) as (r3 & Hr3 & Hc3 & Hk3 & Hp3); try reflexivity; try assumption.
+  exists r3. repeat split; auto.
+  rewrite raws_app. unfold enc_rl. rewrite Hr. assumption.
+Qed.
+
+Lemma feed_one_frame f :
+  frame_ok f = true -> feed rd_init (encode_frame f) = ([f], false, rd_init, []).
+Proof.
+  destruct f as [c body]. intro Hok. destruct (frame_raws c body Hok) as (Hc & r3 & Hr & Hc3 & Hk3 & Hp3).
+  unfold encode_frame. cbn [fst snd].
+  assert (H : raws rd_init (c :: enc_rl (Z.of_nat (length body)) ++ body) = Some r3).
+  { cbn [raws]. rewrite complete_init. unfold raw1. cbn [command rd_init Z.eqb].
+    apply Z.eqb_neq in Hc. rewrite Hc. exact Hr. }
+  rewrite (raws_feed_flush _ _ _ complete_init H). unfold flush. rewrite Hc3.
+  cbn [fst snd]. rewrite Hk3, Hp3. reflexivity.
+Qed.
+
+Theorem frames_roundtrip : forall fs,
+  forallb frame_ok fs = true ->
+  feed rd_init (concat (map encode_frame fs)) = (fs, false, rd_init, []).
+Proof.
+  induction fs as [|f fs IH]; intro H; [reflexivity|].
+  cbn [forallb] in H. apply andb_true_iff in H as [Hf H].
+  cbn [map concat]. rewrite (feed_app _ _ _ _ _ (feed_one_frame f Hf)), (IH H). reflexivity.
+Qed.
+
+
+(* any list of frames, encoded, pushed through the reader under any Chunk/Block schedule, comes out intact *)
+Corollary read_encoded_frames : forall fs sch,
+  forallb frame_ok fs = true -> sock_live ([], sch) = true ->
+  let bs := concat (map encode_frame fs) in
+  outcome (sock_run (sock_fuel (bs, sch)) rd_init (bs, sch)) = (fs, false, rd_init, []).
+Proof.
+  intros fs sch Hf Hl bs. subst bs.
+  rewrite read_total; [apply frames_roundtrip; assumption|exact Hl].
+Qed.
+
+(* ------------------------------------------------------------------------------------------------ *)
+(* the handlers read `remaining_length`; at dispatch it is the length of the body *)
+Definition rl_inv (r : rd) : Prop :=
+  0 <= remaining_length r /\ 0 < remaining_mult r /\
+  (have_remaining r = false -> packet r = []) /\
+  (have_remaining r = true ->
+     0 <= to_process r /\ remaining_length r = Z.of_nat (length (packet r)) + to_process r).
+
+Lemma rl_inv_init : rl_inv rd_init.
+Proof. unfold rl_inv. cbn. repeat split; try lia; try discriminate; auto. Qed.
+
+Lemma raw1_rl_inv r b r' : rl_inv r -> complete r = false -> raw1 r b = (r', false) -> rl_inv r'.
+Proof.
+  intros (H0 & Hm & Hp & Hh) Hc. unfold raw1.
+  destruct (command r =? 0).
+  - destruct (b =? 0); intro E; inv E. unfold rl_inv, set_command; cbn [remaining_length remaining_mult have_remaining packet to_process]. auto.
+  - destruct (have_remaining r) eqn:Ehr; cbn [negb].
+    + intro E; inv E. specialize (Hh eq_refl). destruct Hh as [Ht Hl].
+      unfold complete in Hc. cbn [andb] in Hc.
+      rewrite Ehr in Hc. cbn [andb] in Hc.
+      assert (0 < to_process r) by (destruct (0 <? to_process r) eqn:X; [lia|cbn in Hc; discriminate]).
+      unfold rl_inv, add_data; cbn [remaining_length remaining_mult have_remaining packet to_process].
+      rewrite Ehr. split; [assumption|]. split; [assumption|]. split; [discriminate|].
+      intros _. rewrite app_length. cbn [length]. lia.
+    + cbv zeta. destruct (4 <? _); [discriminate|].
+      assert (0 <= Z.land b 127) by (apply Z.land_nonneg; right; lia).
+      assert (0 <= remaining_length r + Z.land b 127 * remaining_mult r) by nia.
+      specialize (Hp eq_refl).
+      destruct (Z.land b 128 =? 0); intro E; inv E;
+        unfold rl_inv, finish_length, add_length, push_count;
+        cbn [remaining_length remaining_mult have_remaining packet to_process].
+      * split; [assumption|]. split; [lia|]. split; [discriminate|].
+        intros _. rewrite Hp. cbn [length]. lia.
+      * split; [assumption|]. split; [lia|]. split; [auto|]. congruence.
+Qed.
+
+Lemma feed1_frame_length r b r' c body :
+  rl_inv r -> complete r = false -> feed1 r b = (r', FFrame c body) ->
+  exists r1, raw1 r b = (r1, false) /\ command r1 = c /\ packet r1 = body /\
+             remaining_length r1 = Z.of_nat (length body) /\ rl_inv r'.
+Proof.
+  intros Hi Hc. unfold feed1. destruct (raw1 r b) as [r1 e] eqn:E1. destruct e; [discriminate|].
+  destruct (complete r1) eqn:Ec1; [|discriminate]. intro E; inv E.
+  exists r1. split; [reflexivity|]. split; [reflexivity|]. split; [reflexivity|]. split; [|apply rl_inv_init].
+  destruct (raw1_rl_inv _ _ _ Hi Hc E1) as (_ & _ & _ & Hh).
+  unfold complete in Ec1. apply andb_true_iff in Ec1 as [Eh Et]. destruct (Hh Eh) as [Ht Hl].
+  destruct (0 <? to_process r1) eqn:X; [discriminate|]. lia.
+Qed.
